@@ -250,14 +250,14 @@ impl LibraryPath {
         validate_path_len(source.as_ref())?;
 
         // special handling of the first component as it may contain non-alphanumeric characters
-        let (path, mut num_components) = if source.as_ref().starts_with(Self::KERNEL_PATH) {
-            let split_at = Self::KERNEL_PATH.len() + Self::PATH_DELIM.len();
-            (source.as_ref().split_at(split_at).1, 1)
-        } else if source.as_ref().starts_with(Self::EXEC_PATH) {
-            let split_at = Self::EXEC_PATH.len() + Self::PATH_DELIM.len();
-            (source.as_ref().split_at(split_at).1, 1)
-        } else {
-            (source.as_ref(), 0)
+        let (path, mut num_components) = match source.as_ref().split_once(Self::PATH_DELIM) {
+            Some((first, rest)) if first == Self::KERNEL_PATH || first == Self::EXEC_PATH => {
+                (rest, 1)
+            }
+            None if source.as_ref() == Self::KERNEL_PATH || source.as_ref() == Self::EXEC_PATH => {
+                return Ok(1);
+            }
+            _ => (source.as_ref(), 0),
         };
 
         // count the number of components in the path and make sure each component is valid
